@@ -459,3 +459,36 @@ def tpdata_bookkeeping_rule(rep, fp, fl, vals):
             (rep.proved if (after_read or excl) else rep.violated)("R-READOK", fl, "disabled-mark-after-read#%d" % n, desc, "behind the read" if after_read else ("timers excluded" if excl else
                                                                    "set for every event kind before the switch: a worker that loses the read of a shared timer disables it after the winner's callback re-enabled it"), x.get("ln"))
     return n
+
+
+
+def stale_errno_rule(rep, fl):
+    """the error code handed to the callback with TP_F_ERROR comes from the descriptor (SO_ERROR) or from a call made for
+    it, never from whatever errno held when the event arrived: in the EPOLLERR arm every read of errno is preceded, inside
+    the arm, by a library call that can set it"""
+    n = 0
+    arms = []
+    for bid in fl.reachable_blocks():
+        c = fl.blocks[bid].cond
+        if c is not None and any("EPOLLERR" in core.macros(y) for y, _ in _walk(c)):
+            arms.append(bid)
+    if not arms:
+        raise driver.AnalysisBroken("tpt_loop: EPOLLERR test not found")
+    for a in arms:
+        t_ = fl.blocks[a].succ[0]
+        pd = fl.pdom().get(a, set()) - {a}
+        arm = fl.reach_from([t_], avoid=pd) | {t_}
+        calls = [pos for pos, root, c, ps in fl.calls() if pos[0] in arm and c.get("fn") not in (None, "__errno_location")]
+        for pos, root, c, ps in fl.calls({"__errno_location"}):
+            if pos[0] not in arm:
+                continue
+            n += 1
+            ok = any(fl.pos_dominates(cp, pos) for cp in calls)
+            desc = "tpt_loop: errno is read in the error arm only after a call made there"
+            (rep.proved if ok else rep.violated)("R-ERRNO", fl, "errno-fresh@%d" % n, desc, "" if ok else
+                                                 "ev.fflags = errno before any call: on a pipe getsockopt fails (ENOTSOCK) and the stale value stays - a write task on a full "
+                                                 "pipe whose reader closed is told EAGAIN, which the task layer treats as 'no error' and calls back without end", c.get("ln"))
+    if n == 0:
+        rep.proved("R-ERRNO", fl, "errno-fresh", "tpt_loop: errno is not read in the error arm before a call made there", "no read of errno in the arm before a call")
+        n = 1
+    return n
